@@ -39,7 +39,11 @@ Proof.
 Qed.
 
 Lemma bool_eq_iff (x y : bool) : (x = true <-> y = true) -> x = y.
-Proof. destruct x, y; intros [H1 H2]; auto; [symmetry; auto | auto]. Qed.
+Proof.
+  destruct x, y; intros [H1 H2]; try reflexivity.
+  - symmetry. apply H1. reflexivity.
+  - apply H2. reflexivity.
+Qed.
 
 Lemma fit_req pm pm' b b' : oreq pm pm' -> req b b' -> FitInMaxUndef pm (Some b) = FitInMaxUndef pm' (Some b').
 Proof.
